@@ -73,12 +73,64 @@ def _checkers():
             out['nobl'] += 1
             if any(_contains(k, tg, memo_g) or _contains(k, ta, memo_a) for k in keys):
                 add('depends_on_previous_run', 'a result or an increment handed to the integrator depends on the estimate state the model objects had before the run')
-    return Transparent, Repeatable
+    class FeedbackDataflow(fc.Checker):
+        """the defining dataflow of the feedback form: within a measurement epoch the corrections
+        chain (x of one is the x+ of the previous, P likewise), the FIRST correction of every epoch
+        starts from the zero error state (everything estimated so far has been fed back), the state
+        written back is correct_pva(latest state, x[ins block]), the sensor models receive their
+        own blocks of that x, and between epochs P is propagated as Phi P Phi^T + Qd"""
+
+        def extra_obligations(self, ex, res, log, out, add):
+            h = self.h
+            n = h._nstates()
+            ni = 9 if h.with_altitude else 7
+            zero = Tok('zeros', n, n=n).key()
+            x = None
+            P = None
+            last_x = None
+            for e in log:
+                if e[0] == 'predict':
+                    x = zero                # a new epoch: the error state must start from zero
+                    last_x = None
+                elif e[0] == 'correct':
+                    xk, Pk = e[1], e[2]
+                    out['nobl'] += 2
+                    if x is not None and xk is not x:
+                        add('feedback_x_chain', 'a correction does not start from the zero error state at the beginning of an epoch (or does not chain within it): corrections already fed back would be applied again')
+                    if P is not None and Pk is not P:
+                        add('feedback_P_chain', 'a correction does not use the covariance left by the previous correction / propagation')
+                    a5 = tuple(e[1:6])
+                    x = mk('x+', *a5)
+                    P = mk('P+', *a5)
+                    last_x = x
+                elif e[0] == 'set_pva':
+                    out['nobl'] += 1
+                    arg = e[2]
+                    want_x = mk('get', last_x if last_x is not None else zero, mk('tuple', 'slice', None, ni, None))
+                    if not (isinstance(arg, K) and arg[0] == 'correct_pva' and arg[1] is e[3] and arg[2] is want_x):
+                        add('feedback_set_pva', 'the state written back is not correct_pva(latest state, x[ins block]) with the x of this epoch')
+                elif e[0] == 'prop':
+                    a4 = (e[2], e[3], e[4], _key(e[1]))
+                    Phi, Qd = mk('Phi', *a4), mk('Qd', *a4)
+                    if P is None:
+                        P = None
+                    else:
+                        P = mk('add', mk('mm', mk('mm', Phi, P), mk('T', Phi)), Qd)
+                    x = None
+                elif e[0] == 'init':
+                    P = None
+            # P0 is whatever _initialize_covariance returned: pick it up from the first use
+    return Transparent, Repeatable, FeedbackDataflow
 
 
 TRANSPARENT_CANARIES = [
     ('estimates not reset before the run', 'gyro_model.reset_estimates()', 'pass'),
     ('epoch clip keeps the end time as due', 'while measurement_times[measurement_time_index] < increment.name:', 'while measurement_times[measurement_time_index] <= increment.name:'),
+]
+DATAFLOW_CANARIES = [
+    ('error state not zeroed between epochs', '            x = np.zeros(n_states)\n', '            x = x if measurement_time_index else np.zeros(n_states)\n'),
+    ('covariance not carried into the correction', 'x, P, innovation = kalman.correct(x, P, z, H_full, R)', 'x, _P, innovation = kalman.correct(x, P, z, H_full, R); P = _P if False else P'),
+    ('feedback applied to the predicted state', 'error_model.correct_pva(integrator.get_pva(), x[ins_block])', 'error_model.correct_pva(pva, x[ins_block])'),
 ]
 REPEAT_CANARIES_FB = [
     ('feedback: gyro estimates not reset', 'gyro_model.reset_estimates()', 'pass'),
@@ -175,7 +227,7 @@ FEEDBACK_CANARIES = [
 def run(run):
     from .. import filterdrive, enga, common
     import pyins.filters as F
-    Transparent, Repeatable = _checkers()
+    Transparent, Repeatable, FeedbackDataflow = _checkers()
     run.assume('(a) transparency: all measurement stamps constrained outside [start, end) (also measurements = None / []); sensor models replaced by the contract "with estimates at their reset values correct_increments returns its input" whose bit-exactness is the FloatingPoint lemma set below; with the chunk-split law of C02 the trajectory is then bit-identical to one integrate call',
                'FP lemmas assume finite data and dt > 0; LAPACK gesv on the identity matrix is modelled as textbook elimination (pivots 1, multipliers 0); for an increment entry that is a NEGATIVE ZERO the result is numerically equal but may differ in the sign of zero - such inputs are outside the bit-identity claim',
                '(c) repeatability: model objects enter with symbolic garbage in bias / transform; obligation: no logged token depends on it (both filters)',
@@ -219,6 +271,15 @@ def run(run):
         a, b = merge(sub, 'repeatability: ')
         tot_states += a
         tot_valid += b
+    # dataflow of the feedback form on schedules with several epochs inside one IMU interval
+    sub = type(run)(PROP, run.level, run.tier, run.seed)
+    cfgs = [dict(label='feedback dataflow 2inc P2 V1', n_rows=2, sensors=[(P, 2, 2), (V, 1, 2)], model_states=(3, 3)),
+            dict(label='feedback dataflow 3inc P1 B1 2D', n_rows=3, sensors=[(P, 1, 2), (BV, 1, 3)], with_altitude=False, model_states=(2, 2))]
+    filterdrive.drive(sub, PROP, 'feedback', 'run_feedback_filter', cfgs, DATAFLOW_CANARIES,
+                      dict(n_rows=2, sensors=[(P, 2, 2)], model_states=(1, 1)), checker_cls=FeedbackDataflow, validate_cap=8)
+    a, b = merge(sub, 'feedback dataflow: ')
+    tot_states += a
+    tot_valid += b
     fp_lemmas(run)
     # (b')
     rep = enga.AReport(run, box={'dt': (0.01, 1)})
@@ -299,6 +360,71 @@ def replay(spec):
         it.integrate(inc)
         if res.trajectory.values.tobytes() != it.trajectory.values.tobytes():
             failed.append('without measurements the filter trajectory is not bit-identical to plain integration (max diff %.3g)' % np.abs(res.trajectory.values - it.trajectory.values).max())
+    else:
+        failed += _replay_feedback_dataflow(spec)
     r['failed'] = list(r.get('failed') or []) + failed
     r['violated'] = bool(r['failed'])
     return r
+
+
+def _replay_feedback_dataflow(spec):
+    """the feedback-form dataflow on the real loop for one concrete schedule: recording wrappers
+    (module attributes of the running interpreter) around kalman.correct and Integrator.predict;
+    the first correction of every epoch must start from the zero error state"""
+    import numpy as np
+    import pandas as pd
+    from pyins import filters, measurements, inertial_sensor, strapdown
+    from pyins.util import TRAJECTORY_COLS
+    stamps = np.array(spec['stamps'], dtype=float)
+    wa = spec['with_altitude']
+    pva0 = pd.Series([50.0, 30.0, 100.0, 1.0, -2.0, 0.0 if not wa else 0.5, 1.0, -2.0, 40.0], index=TRAJECTORY_COLS, name=stamps[0])
+    dt = np.diff(stamps)
+    inc = pd.DataFrame({'dt': dt}, index=pd.Index(stamps[1:], name='time'))
+    for j, c in enumerate(['theta_x', 'theta_y', 'theta_z']):
+        inc[c] = [1e-5, 2e-5, -1e-5][j] * dt
+    for j, c in enumerate(['dv_x', 'dv_y', 'dv_z']):
+        inc[c] = [0.01, -0.02, -9.81][j] * dt
+    meas = []
+    for name, times in spec['sensors'].items():
+        times = np.array(times, dtype=float)
+        if name == 'Position':
+            meas.append(measurements.Position(pd.DataFrame({'lat': 50.00001, 'lon': 30.00001, 'alt': 101.0}, index=times), 5.0))
+        elif name == 'NedVelocity':
+            meas.append(measurements.NedVelocity(pd.DataFrame({'VN': 1.1, 'VE': -2.1, 'VD': 0.0}, index=times), 0.5))
+        else:
+            meas.append(measurements.BodyVelocity(pd.DataFrame({'VX': 1.0, 'VY': 0.0, 'VZ': 0.1}, index=times), 0.5))
+    events = []
+    oc = filters.kalman.correct
+    oi = filters.strapdown.Integrator
+
+    def correct(x, P, z, H, R):
+        events.append(('correct', np.array(x, dtype=float).copy()))
+        return oc(x, P, z, H, R)
+
+    class RecI(oi):
+        def predict(self, inc_):
+            events.append(('predict',))
+            return oi.predict(self, inc_)
+    filters.kalman.correct = correct
+    filters.strapdown.Integrator = RecI
+    failed = []
+    try:
+        kw = {} if spec.get('default_step') else {'time_step': spec['step']}
+        gm = inertial_sensor.EstimationModel(bias_sd=1e-5, noise=1e-6)
+        am = inertial_sensor.EstimationModel(bias_sd=1e-2, noise=1e-3)
+        filters.run_feedback_filter(pva0, 10.0, 1.0, 1.0, 1.0, inc, gyro_model=gm, accel_model=am, measurements=meas, with_altitude=wa, **kw)
+    except Exception as e:      # noqa: BLE001
+        failed.append('exception %s: %s' % (type(e).__name__, str(e)[:160]))
+    finally:
+        filters.kalman.correct = oc
+        filters.strapdown.Integrator = oi
+    fresh = False
+    for ev in events:
+        if ev[0] == 'predict':
+            fresh = True
+        elif fresh:
+            fresh = False
+            if np.any(ev[1] != 0):
+                failed.append('the first correction of a measurement epoch starts from a non-zero error state (max |x| %.3g): a correction that was already fed back is applied again' % np.abs(ev[1]).max())
+                break
+    return failed
